@@ -1,5 +1,27 @@
 """Translator module: dispatch tables, constructor guards and value keys of the Circuit layer and of the loaders
--> coq/Gen/Tables.v.  Fail-closed: every construct outside the enumerated shapes raises Unsupported."""
+-> coq/Gen/Tables.v.  Fail-closed: every construct outside the enumerated shapes raises Unsupported.
+
+Circuit/components.py, accepted top level: imports, the class Component, and function definitions of two shapes
+  constructor    def f(<params, defaults: int / str / tuple of str>):
+                     [periodic_function(wavetype)]                       waveform lookup, anywhere among the guards
+                     <guard> ...                                         zero or more, recorded in source order
+                     return Component(type='..', id=id, nodes=nodes[, value={'k': <param | param.real | param.imag | int>}])
+                 <guard> ::= if P < 0: raise ValueError(...)             P a parameter of f           -> guard P
+                           | H(A1, ..., An)                              H a guard helper (below), called as an expression
+                                                                         statement, all arguments positional, as many as H
+                                                                         has parameters; the argument in the position of H's
+                                                                         tested parameter is a parameter P of f (-> guard P),
+                                                                         every other argument is a string literal (it can only
+                                                                         reach the exception's message, which the table does
+                                                                         not carry - as for the inline guard)
+  guard helper   def H(Q1 [: ann], ..., Qn [: ann]) [-> ann]:             no defaults, no */** parameters, no decorator
+                     if Qi < 0: raise ValueError(...)                     the ONLY statement; Qi one of the parameters
+                 (added for the refactoring that moves the sign checks of the source constructors into
+                 `_require_not_negative(symbol, value)`).  The call `H(.., P, ..)` means exactly the inline guard
+                 `if P < 0: raise ValueError(...)` at that place (same comparison, same operand order, same exception class), so
+                 both styles produce the SAME c_guards list.  A guard helper gets no row in component_ctors.  Its name must be
+                 defined once in the module, must not be a parameter of the calling constructor, and the call must name it directly.
+Any other function shape, statement or call is refused."""
 import ast
 import os
 
@@ -46,10 +68,52 @@ def _default(d, path):
     raise Unsupported(f'{where(d, path)}: default value {ast.unparse(d)}')
 
 
+def _guard_helper(f, path):
+    """`def H(Q1, ..., Qn): if Qi < 0: raise ValueError(...)` -> (parameter names, i); None when f is not of that shape at all
+    (i.e. its body is not a single `if` statement: it is then treated as a constructor)"""
+    if not (len(f.body) == 1 and isinstance(f.body[0], ast.If)):
+        return None
+    a = f.args
+    if f.decorator_list or a.vararg or a.kwarg or a.kwonlyargs or a.posonlyargs or a.defaults:
+        raise Unsupported(f'{where(f, path)}: guard helper {f.name}: decorator / default / star / keyword-only parameters')
+    params = [x.arg for x in a.args]
+    if len(set(params)) != len(params):
+        raise Unsupported(f'{where(f, path)}: guard helper {f.name}: parameter names {params}')
+    tested = _guard(f.body[0], path, params)
+    return params, params.index(tested)
+
+
+def _helper_call(s_, path, helpers, params, fname):
+    """`H(A1, ..., An)` as a statement of the constructor fname -> the constructor parameter it guards"""
+    c = s_.value
+    h = c.func.id
+    hparams, pos = helpers[h]
+    if h in params:
+        raise Unsupported(f'{where(s_, path)}: {fname}: the guard helper name {h} is shadowed by a parameter')
+    if c.keywords or len(c.args) != len(hparams) or any(isinstance(x, ast.Starred) for x in c.args):
+        raise Unsupported(f'{where(s_, path)}: {fname}: call {ast.unparse(c)}: {len(hparams)} positional arguments expected')
+    for i, x in enumerate(c.args):
+        if i == pos:
+            if not (isinstance(x, ast.Name) and x.id in params):
+                raise Unsupported(f'{where(s_, path)}: {fname}: {ast.unparse(c)}: the guarded argument {ast.unparse(x)} is not a parameter')
+        elif not (isinstance(x, ast.Constant) and isinstance(x.value, str)):
+            raise Unsupported(f'{where(s_, path)}: {fname}: {ast.unparse(c)}: argument {ast.unparse(x)} is not a string literal')
+    return c.args[pos].id
+
+
 def components(src):
     path = os.path.join(src, 'Circuit', 'components.py')
     tree = parse(path)
     out = []
+    defs = [st.name for st in tree.body if isinstance(st, ast.FunctionDef)]
+    helpers = {}
+    for st in tree.body:
+        if isinstance(st, ast.FunctionDef) and st.name not in SKIP_COMPONENT_FUNCS:
+            gh = _guard_helper(st, path)
+            if gh is not None:
+                if defs.count(st.name) != 1:
+                    raise Unsupported(f'{where(st, path)}: guard helper {st.name} is defined more than once')
+                helpers[st.name] = gh
     for st in tree.body:
         if isinstance(st, (ast.ImportFrom, ast.Import)):
             continue
@@ -59,7 +123,7 @@ def components(src):
             continue
         if not isinstance(st, ast.FunctionDef):
             raise Unsupported(f'{where(st, path)}: unexpected top-level statement')
-        if st.name in SKIP_COMPONENT_FUNCS:
+        if st.name in SKIP_COMPONENT_FUNCS or st.name in helpers:
             continue
         a = st.args
         if a.vararg or a.kwarg or a.kwonlyargs or a.posonlyargs:
@@ -73,6 +137,11 @@ def components(src):
                     s_.value.func.id == 'periodic_function' and len(s_.value.args) == 1 and not s_.value.keywords and \
                     isinstance(s_.value.args[0], ast.Name) and s_.value.args[0].id == 'wavetype' and 'wavetype' in params:
                 checks_wave = True
+                continue
+            # `H(.., P, ..)` with H a guard helper: the guard `if P < 0: raise ValueError(...)`
+            if isinstance(s_, ast.Expr) and isinstance(s_.value, ast.Call) and isinstance(s_.value.func, ast.Name) and \
+                    s_.value.func.id in helpers:
+                guards.append(_helper_call(s_, path, helpers, params, st.name))
                 continue
             guards.append(_guard(s_, path, params))
         ret = st.body[-1]
